@@ -14,7 +14,8 @@ use std::collections::{BTreeMap, BTreeSet, HashMap};
 use std::sync::Mutex;
 use std::sync::atomic::{AtomicU64, Ordering};
 
-pub const FILES: [&str; 3] = ["/p/a.graphql", "/p/b.graphql", "/p/c.graphql"];
+/// the last one is a legal but not normalised spelling of the first (used by its own families only)
+pub const FILES: [&str; 4] = ["/p/a.graphql", "/p/b.graphql", "/p/c.graphql", "/p/x/../a.graphql"];
 /// (text, imports as absolute targets, parses)
 pub const SOURCES: [(&str, &[&str], bool); 8] = [
     ("query Q { a }\n", &[], true),
@@ -337,14 +338,19 @@ pub fn child() -> i32 {
 }
 
 fn alphabet(files: usize, sources: &[u8], tasks: u8, with_probes: bool) -> Vec<Op> {
+    let fs: Vec<u8> = (0..files as u8).collect();
+    alphabet_on(&fs, sources, tasks, with_probes)
+}
+
+fn alphabet_on(files: &[u8], sources: &[u8], tasks: u8, with_probes: bool) -> Vec<Op> {
     let mut v = vec![];
-    for f in 0..files as u8 {
+    for &f in files {
         for &s in sources {
             v.push(Op::Init(f, s));
         }
     }
     for t in 0..tasks {
-        for f in 0..files as u8 {
+        for &f in files {
             for &s in sources {
                 v.push(Op::Load(t, f, s));
             }
@@ -386,6 +392,8 @@ pub fn run(args: &Args) -> i32 {
     let mut plans = vec![("full-alphabet", alphabet(3, &all, 3, false), if args.quick() { 3 } else { 3 })];
     if args.quick() {
         plans.push(("2files-3sources-depth4", alphabet(2, &[1, 3, 4], 2, false), 4));
+        // a file name with a `..` segment, as root and as supplied file, next to its normalised spelling
+        plans.push(("not-normalised-name:3names-3sources-1task-depth3", alphabet_on(&[0, 1, 3], &[0, 1, 3], 1, false), 3));
         // required()/emit() as letters, nothing called between the letters: one task, files re-supplied with other bodies
         plans.push(("explicit-calls:2files-5sources-1task-depth4", alphabet(2, &[0, 1, 2, 6, 7], 1, true), 4));
         plans.push(("explicit-calls+config+log:1file-2sources-1task-depth4", alphabet_with_config(1, &[0, 2], 1), 4));
@@ -393,6 +401,7 @@ pub fn run(args: &Args) -> i32 {
         plans.push(("3files-4sources-2tasks-depth4", alphabet(3, &[1, 2, 3, 4], 2, false), 4));
         plans.push(("2files-3sources-2tasks-depth5", alphabet(2, &[1, 3, 4], 2, false), 5));
         plans.push(("probes-as-operations-depth4", alphabet(2, &[1, 3], 2, true), 4));
+        plans.push(("not-normalised-name:3names-4sources-2tasks-depth4", alphabet_on(&[0, 1, 3], &[0, 1, 2, 3], 2, false), 4));
         plans.push(("explicit-calls:2files-5sources-2tasks-depth4", alphabet(2, &[0, 1, 2, 6, 7], 2, true), 4));
         plans.push(("explicit-calls:2files-4sources-1task-depth5", alphabet(2, &[0, 1, 2, 6], 1, true), 5));
         plans.push(("explicit-calls+config+log:2files-3sources-1task-depth5", alphabet_with_config(2, &[1, 2, 6], 1), 5));
